@@ -153,20 +153,29 @@ def gen(rng, tier, index):
                 req = {"op": "close", "id": rid}
             elif r < 0.42:
                 req = {"op": rng.choice(["frobnicate", "i1e", "3:abc"]), "id": rid}
+            elif r < 0.49:
+                # a well-framed request whose handler raises before it can answer (ns is an int):
+                # the server logs it and must carry on with the NEXT request of the same batch
+                req = {"op": "eval", "id": rid, "code": 0, "bad_ns": True}
             else:
                 req = {"op": "eval", "id": rid, "code": rng.randrange(len(EVALS))}
             if rng.random() < 0.3:
                 req["session"] = f"s{c}"
             reqs.append(req)
         fault = rng.random() < 0.45
+        fail_sends = sorted(rng.sample(range(12), rng.choice([1, 2, 3]))) if fault and rng.random() < 0.5 else []
+        raising = any(r_.get("bad_ns") for r_ in reqs)
+        # failures only interact with framing when several requests come out of ONE buffer
+        frag_modes = ["whole", "coalesce", "coalesce", "mixed"] if (fail_sends or raising) and rng.random() < 0.7 \
+            else ["byte", "small", "mixed", "whole", "coalesce"]
         conns.append({"requests": reqs, "frag_seed": rng.getrandbits(32),
-                      "frag": rng.choice(["byte", "small", "mixed", "whole", "coalesce"]),
+                      "frag": rng.choice(frag_modes),
                       "recv_bias": rng.choice(["mixed", "mixed", "byte", "all"]),
                       "bufsize": rng.choice([1, 7, 16, 64, 1024]),
                       "delays": rng.random() < 0.3,
                       "end": (rng.choice(["eof", "eof", "reset", "cut-eof", "cut-eof", "cut-reset"]) if fault else "eof"),
                       "cut_frac": rng.random(),
-                      "fail_sends": (sorted(rng.sample(range(12), rng.choice([1, 2]))) if fault and rng.random() < 0.4 else [])})
+                      "fail_sends": fail_sends})
     return {"kind": "net", "conns": conns}
 
 
@@ -229,7 +238,7 @@ def describe():
         "real": ["basilisp.contrib.bencode encode/decode/decode-all", "basilisp.contrib.nrepl-server on-connect, request/"
                  "response middleware, handlers (eval compiles and runs real code)"],
         "stub": ["socket (SimSocket: recv/sendall/getsockname/close)", "OS scheduler", "clock"],
-        "fault_kinds": ["cut_mid_message_eof", "cut_mid_message_reset", "reset_at_boundary", "sendall_fails",
+        "fault_kinds": ["cut_mid_message_eof", "cut_mid_message_reset", "reset_at_boundary", "sendall_fails", "handler_raises",
                         "one_byte_fragments", "coalesced_messages", "virtual_delay"],
         "assumptions": ["TCP is a reliable ordered byte stream: loss/reordering are not injected",
                         "eval of each request is atomic with respect to other connections (runtime locks are not shimmed)",
@@ -415,6 +424,8 @@ def _run_net(workload, k):
                 d["session"] = r["session"]
             if r["op"] == "eval":
                 d["code"] = EVALS[r["code"]][0]
+            if r.get("bad_ns"):
+                d["ns"] = 5
             reqs_bytes.append(REF.encode(d))
         stream = b"".join(reqs_bytes)
         send_upto = len(stream)
@@ -490,6 +501,9 @@ def _run_net(workload, k):
             faults["coalesced_messages"] = faults.get("coalesced_messages", 0) + 1
         if conn["cfg"]["delays"]:
             faults["virtual_delay"] = faults.get("virtual_delay", 0) + 1
+        nb = sum(1 for r_ in conn["cfg"]["requests"][:conn["complete"]] if r_.get("bad_ns"))
+        if nb:
+            faults["handler_raises"] = faults.get("handler_raises", 0) + nb
     kv = R.kernel_failure_verdict(ID, k)
     if kv is not None:
         kv["faults"] = faults
@@ -524,7 +538,9 @@ def _judge_conn(ci, conn):
     delivered_ok = [p for _, p, ok in conn["server"].sent_log if ok]
     if not reset and bytes(conn["rx"]) != b"".join(delivered_ok):
         return f"{ID}/bytes-lost-or-crossed-between-connections", {"conn": ci}
-    reqs = cfg["requests"][:conn["complete"]]
+    reqs_all = cfg["requests"][:conn["complete"]]
+    optional = {r["id"] for r in reqs_all if r.get("bad_ns")}     # handler raises: may stay unanswered
+    reqs = [r for r in reqs_all if r["id"] not in optional]
     want_ids = [r["id"] for r in reqs]
     by_id = []
     for v in vals:
@@ -536,6 +552,7 @@ def _judge_conn(ci, conn):
         if not by_id or by_id[-1][0] != rid:
             by_id.append((rid, []))
         by_id[-1][1].append(v)
+    by_id = [(rid, resp) for rid, resp in by_id if rid not in optional]
     got_ids = [rid for rid, _ in by_id]
     if reset:
         # after a reset the loop may stop early: the answered ids must be a prefix of the complete ones
